@@ -42,12 +42,27 @@ class Builder(ast.NodeVisitor):
         self.errors = []
 
     # -- helpers
+    def mangle(self, name, scope=None):
+        """private name mangling: inside a class (its body and every function nested in it, up to the next class) an
+        identifier `__x` that does not end in two underscores is the name `_Class__x`"""
+        if not (isinstance(name, str) and name.startswith('__') and not name.endswith('__') and '.' not in name):
+            return name
+        s = scope or self.scope
+        while s is not None and s.kind != 'class':
+            s = s.parent
+        if s is None:
+            return name
+        cls = s.name.lstrip('_')
+        return name if not cls else '_' + cls + name
+
     def bind(self, name, node, field, index=None, scope=None):
         s = scope or self.scope
+        name = self.mangle(name, s)
         s.bound.add(name)
         self.occs.append(Occ(name, s, 'bind', node, field, index))
 
     def use(self, name, node, field):
+        name = self.mangle(name)
         self.scope.used.add(name)
         self.occs.append(Occ(name, self.scope, 'use', node, field))
 
@@ -91,11 +106,13 @@ class Builder(ast.NodeVisitor):
 
     def visit_Global(self, node):
         for i, n in enumerate(node.names):
+            n = self.mangle(n)
             self.scope.global_decl.add(n)
             self.occs.append(Occ(n, self.scope, 'decl', node, 'names', i))
 
     def visit_Nonlocal(self, node):
         for i, n in enumerate(node.names):
+            n = self.mangle(n)
             self.scope.nonlocal_decl.add(n)
             self.occs.append(Occ(n, self.scope, 'decl', node, 'names', i))
 
@@ -303,11 +320,13 @@ def all_scopes(root):
 
 
 def module_bound_names(root):
-    """Names bound at module level, including via `global` declarations in nested scopes."""
+    """Names bound at module level, including those bound in a nested scope that declares them `global`.  A name that is
+    declared global but never bound anywhere is *not* bound by the module: it is set from outside, or it is a builtin."""
     names = set(n for n in root.bound)
     for s in all_scopes(root):
         for n in s.global_decl:
-            names.add(n)       # declared global somewhere: a module-level name even if never assigned
+            if n in s.bound:
+                names.add(n)
     return names
 
 
@@ -336,8 +355,6 @@ def validate_against_symtable(src):
     def walk(scope, table):
         names = set(scope.bound) | set(scope.used) | scope.global_decl | scope.nonlocal_decl
         for n in sorted(names):
-            if n.startswith('__') and not n.endswith('__'):
-                continue        # private name mangling: symtable stores _Class__name; out of scope for validation
             try:
                 sym = table.lookup(n)
             except KeyError:
